@@ -223,6 +223,33 @@ def drive_conversions(rec, count):
                            "_what": "b_to_znx128(b(%d))" % x})
             if r128 != x:
                 rec.violation("int64 -> b -> int128 is not the identity on %d (got %d)" % (x, r128), {"x": x, "got": r128})
+    # b -> c on arbitrary representatives: every residue class of interest (0, 1, q-1, q-2, random) times every multiple of interest
+    # (none, one, the largest that fits 64 bits and its neighbours, random)
+    reps = []
+    for _ in range(3 + count // 8):
+        lanes = []
+        for k in range(4):
+            r = rng.choice([0, 1, q[k] - 1, q[k] - 1, q[k] - 2, rng.randrange(0, q[k])])
+            kmax = ((1 << 64) - 1 - r) // q[k]
+            mul = rng.choice([0, 1, kmax, kmax, kmax - 1, kmax - rng.randrange(0, 2000), rng.randrange(0, kmax + 1), kmax >> 1, (kmax >> 1) + 1])
+            lanes.append(r + q[k] * mul)
+        reps.append(lanes)
+    nb = len(reps)
+    Bb2, C3 = Buf(32 * nb), Buf(32 * nb, fill=0xEE)
+    Bb2.u64[:] = np.array(reps, dtype=np.uint64).reshape(-1)
+    if rec.progress("q120_c_from_b_simple on %d arbitrary representatives" % nb):
+        b0 = Bb2.snapshot()
+        L.fn("q120_c_from_b_simple", "v upp")(nb, C3.addr, Bb2.addr)
+        if not (Bb2.canaries_ok() and C3.canaries_ok()) or not np.array_equal(Bb2.u8, b0):
+            rec.violation("q120_c_from_b_simple: write outside the output or source modified", {})
+        c3 = C3.view(np.uint32).reshape(nb, 8)
+        for i in range(nb):
+            rec.case(("conv", "c_from_b representatives"))
+            if c3[i].max() >= (1 << 31):
+                rec.violation("q120_c_from_b_simple on lanes %s returned an unreduced 32-bit value" % reps[i], {"lanes": [str(v) for v in reps[i]]})
+                continue
+            events.append({"e": "QConv", "kind": "c_from_b", "x": qc.residues(reps[i]),
+                           "res": [[int(c3[i][2 * k]), int(c3[i][2 * k + 1])] for k in range(4)], "_what": "c_from_b(%s)" % reps[i]})
     # lift on both sides of +-Q/2, with non-canonical lanes; additions
     vals = [(Q - 1) // 2, (Q + 1) // 2, -(Q - 1) // 2, -(Q + 1) // 2, 0, 1, -1, Q - 1, (Q - 1) // 2 - 1] + \
            [rng.randrange(-(Q // 2), Q // 2) for _ in range(count)]
